@@ -33,7 +33,7 @@ def rt_job(j):
             build_distinct(other, hier=j['hier']).to_yaml('saved/model_file.yaml')
             CircuitTemplate.from_yaml('saved/model_file/net')
             clear_frontend_caches()
-        c = build_distinct(p['prog'], hier=j['hier'])
+        c = build_distinct(p['prog'], hier=j['hier'], samename=j.get('samename', False))
         c.to_yaml('saved/model_file.yaml')
         clear_frontend_caches()
         c2 = CircuitTemplate.from_yaml('saved/model_file/net')
@@ -49,7 +49,7 @@ def rt_job(j):
         return dict(exc=type(e).__name__, msg=str(e)[:300], tb=traceback.format_exc()[-700:])
 
 
-def build_distinct(prog, hier=0):
+def build_distinct(prog, hier=0, samename=False):
     """every node gets its own operator templates (names suffixed with the node), values as operator defaults"""
     from pyrates import OperatorTemplate, NodeTemplate, CircuitTemplate, EdgeTemplate
     nodes = {}
@@ -81,7 +81,8 @@ def build_distinct(prog, hier=0):
     subs = {}
     for n, t in nodes.items():
         subs.setdefault(f'c{n % 2}', {})[f'n{n}'] = t
-    return CircuitTemplate('net', circuits={k: CircuitTemplate(k, nodes=v) for k, v in subs.items()}, edges=edges)
+    # samename: the sub-circuits differ in content but carry one template name
+    return CircuitTemplate('net', circuits={k: CircuitTemplate('col' if samename else k, nodes=v) for k, v in subs.items()}, edges=edges)
 
 
 # ---------------------------------------------------------------- (C) derived templates
@@ -270,14 +271,14 @@ def run(ctx):
     progs = c01.tlc_programs(ctx, 'round-trip', 'Programs({"L", "P", "S"}, 1, 2, 2, {FALSE, TRUE})')
     rng = random.Random(ctx.seed); rng.shuffle(progs)
     progs = [p for p in progs if not (p['d43'])][:150 if tier == 'quick' else 3000]
-    jobs = [dict(p=p, hier=k % 2, vec=(k % 3 != 0), again=(k % 5 == 0), first=(k % 4 == 1)) for k, p in enumerate(progs)]
+    jobs = [dict(p=p, hier=k % 2, vec=(k % 3 != 0), again=(k % 5 == 0), first=(k % 4 == 1), samename=(k % 2 == 1 and k % 4 == 3)) for k, p in enumerate(progs)]
     jobs = [j for j in jobs if not (j['vec'] and j['p']['d42'])]
     for j, o in zip(jobs, run_cases(rt_job, jobs, timeout=600)):
         if 'harness_error' in o:
             raise RuntimeError(f'replay failed: {o}')
         ctx.replayed += 1
-        ctx.case(key=['rt', j['p']['prog'], j['hier'], j['vec'], j['again'], j['first']], nontrivial=True)
-        c01.judge(ctx, j['p'], dict(hier=j['hier'], vec=j['vec'], again=j['again'], first=j['first'], form='yaml-round-trip'), o, 'field of the saved and re-loaded circuit vs Denote')
+        ctx.case(key=['rt', j['p']['prog'], j['hier'], j['vec'], j['again'], j['first'], j['samename']], nontrivial=True)
+        c01.judge(ctx, j['p'], dict(hier=j['hier'], vec=j['vec'], again=j['again'], first=j['first'], samename=j['samename'], form='yaml-round-trip'), o, 'field of the saved and re-loaded circuit vs Denote')
     # (C)
     djobs = derive_cases(tier)
     for j, o in zip(djobs, run_cases(derive_job, djobs, timeout=300)):
